@@ -68,6 +68,7 @@ def run_batch(lib, behs, wfd, tmo):
         workdir = tempfile.mkdtemp(prefix="h4v_")
         status = "ok"
         w.write(json.dumps({"begin": bi}) + "\n")
+        w.flush()           # (a crash in the very first call must still be attributed to this behaviour)
         ctx = None
         try:
             signal.alarm(tmo)
